@@ -75,18 +75,22 @@ where
             std::thread::Builder::new()
                 .name("timeout".to_owned())
                 .spawn(move || loop {
-                    let mut market = s1.market.lock();
-                    #[cfg(getong_stateright_verif)]
-                    let _lock_scope = verif::LockScopeProbe::enter();
-                    let now = SystemTime::now();
-                    if closing_time < now {
-                        log::debug!("Reached timeout, triggering shutdown");
-                        market.open = false;
-                    }
-                    #[cfg(getong_stateright_verif)]
-                    verif::emit(&s1, &market, "TimeoutPoll", (closing_time < now) as usize, 0);
-                    if !market.open {
-                        break;
+                    {
+                        // The lock must only be held for the check itself: holding it across
+                        // the sleep below would block every worker that visits the market.
+                        let mut market = s1.market.lock();
+                        #[cfg(getong_stateright_verif)]
+                        let _lock_scope = verif::LockScopeProbe::enter();
+                        let now = SystemTime::now();
+                        if closing_time < now {
+                            log::debug!("Reached timeout, triggering shutdown");
+                            market.open = false;
+                        }
+                        #[cfg(getong_stateright_verif)]
+                        verif::emit(&s1, &market, "TimeoutPoll", (closing_time < now) as usize, 0);
+                        if !market.open {
+                            break;
+                        }
                     }
                     #[cfg(getong_stateright_verif)]
                     verif::emit_unlocked(&s1, "TimeoutSleepBegin", verif::LockScopeProbe::held() as usize);
